@@ -85,8 +85,9 @@ func (fr *Frame) callVals(c *ssa.CallCommon, fv *Val, args []*Val, argVals []ssa
 	if callee == nil {
 		// dynamic call through a function value
 		fr.safety("nil", "call func value", pos, not(eq(fv.T, "0")))
-		vc.note("dynamic call through function value in %s: in-module heaps havocked", fr.fn)
-		fr.havocModSet(&ModSet{All: true}, "dynamic call")
+		ms := vc.eng.dynamicModSet(c.Signature())
+		vc.externals["call through function value of type "+types.TypeString(c.Signature(), nil)+" (assumed: behaves like one of the in-module functions of that type; application callbacks do not re-enter the library)"] = true
+		fr.havocModSet(ms, "dynamic call")
 		if rt == nil {
 			return nil
 		}
@@ -150,7 +151,7 @@ func (fr *Frame) externEffects(callee *ssa.Function, args []*Val) {
 		switch t := a.Typ.Underlying().(type) {
 		case *types.Slice:
 			es := U.sortOf(t.Elem())
-			hn, hs := fr.elemHeap(es)
+			hn, hs := U.elemHeapT(t.Elem())
 			h := vc.heap(fr.st, hn, hs)
 			row := vc.fresh("extrow", arrSort(SInt, es))
 			vc.setHeap(fr.st, hn, hs, store(h, sx("sarr", a.T), row))
@@ -168,8 +169,7 @@ func (fr *Frame) externEffects(callee *ssa.Function, args []*Val) {
 					vc.setHeap(fr.st, hn, hs, store(h, a.T, nv.T))
 				}
 			} else if !isStruct(t.Elem()) && !isArray(t.Elem()) {
-				es := U.sortOf(t.Elem())
-				hn, hs := "P|"+es, arrSort(SInt, es)
+				hn, hs := U.ptrHeapT(t.Elem())
 				h := vc.heap(fr.st, hn, hs)
 				nv := fr.freshVal("extptr", t.Elem())
 				vc.setHeap(fr.st, hn, hs, store(h, a.T, nv.T))
@@ -188,6 +188,45 @@ func (fr *Frame) externEffects(callee *ssa.Function, args []*Val) {
 type ModSet struct {
 	All   bool
 	Names map[string]Sort
+	Types map[string][]types.Type // Go types whose sorts the heap's sort mentions
+	// NonFresh[name]: some write to the heap may hit an object that existed before the call;
+	// heaps absent from NonFresh are only written at objects allocated during the call.
+	NonFresh map[string]bool
+}
+
+func newModSet() *ModSet {
+	return &ModSet{Names: map[string]Sort{}, Types: map[string][]types.Type{}, NonFresh: map[string]bool{}}
+}
+
+func (ms *ModSet) add(name string, s Sort, ts ...types.Type) {
+	ms.Names[name] = s
+	ms.Types[name] = ts
+	ms.NonFresh[name] = true
+}
+
+// addFresh records a write that only hits an object allocated by the writer itself.
+func (ms *ModSet) addFresh(name string, s Sort, ts ...types.Type) {
+	if _, ok := ms.Names[name]; !ok {
+		ms.Names[name] = s
+		ms.Types[name] = ts
+	}
+}
+
+func (ms *ModSet) merge(o *ModSet) {
+	for k, v := range o.Names {
+		ms.Names[k] = v
+		ms.Types[k] = o.Types[k]
+		if o.NonFresh[k] {
+			ms.NonFresh[k] = true
+		}
+	}
+}
+
+// declareIn makes sure the sorts of heap `name` exist in universe U.
+func (ms *ModSet) declareIn(U *Universe, name string) {
+	for _, t := range ms.Types[name] {
+		U.sortOf(t)
+	}
 }
 
 func (fr *Frame) havocModSet(ms *ModSet, why string) {
@@ -219,8 +258,14 @@ func (fr *Frame) havocModSet(ms *ModSet, why string) {
 		}
 		sort.Strings(names)
 		for _, n := range names {
+			ms.declareIn(vc.U, n)
 			vc.initHeap(n, ms.Names[n])
-			vc.havocHeap(fr.st, n)
+			old := vc.heap(fr.st, n, ms.Names[n])
+			nw := vc.havocHeap(fr.st, n)
+			if !ms.NonFresh[n] && !strings.HasPrefix(n, "G|") {
+				// written only at objects allocated during the call: existing objects keep their value
+				vc.assume(fr.reach, fmt.Sprintf("(forall ((r!q Int)) (! (=> (<= r!q %s) (= (select %s r!q) (select %s r!q))) :pattern ((select %s r!q))))", a, nw, old, nw))
+			}
 		}
 	}
 	na := vc.fresh("$alloc", SInt)
@@ -370,7 +415,7 @@ func (fr *Frame) builtin(b *ssa.Builtin, c *ssa.CallCommon, args []*Val, argVals
 	case "panic":
 		p := fr.pos(pos)
 		src := vc.eng.srcLine(p)
-		if !vc.eng.noSafety {
+		if !vc.noSafety {
 			vc.oblige("panic", fmt.Sprintf("%s/panic#%s", relFuncName(vc.fn), hash4(src)), p, src, fr.reach, "false", vc.safetyProps())
 		}
 		return nil
@@ -425,7 +470,7 @@ func (fr *Frame) builtinAppend(args []*Val, argVals []ssa.Value, rt types.Type) 
 		et = sl.Elem()
 	}
 	es := U.sortOf(et)
-	hn, hs := fr.elemHeap(es)
+	hn, hs := U.elemHeapT(et)
 	rowS := arrSort(SInt, es)
 	var tlen Term
 	tIsString := false
@@ -490,7 +535,7 @@ func (fr *Frame) builtinCopy(args []*Val, argVals []ssa.Value) *Val {
 	d, s := args[0], args[1]
 	et := argVals[0].Type().Underlying().(*types.Slice).Elem()
 	es := U.sortOf(et)
-	hn, hs := fr.elemHeap(es)
+	hn, hs := U.elemHeapT(et)
 	rowS := arrSort(SInt, es)
 	h := vc.heap(fr.st, hn, hs)
 	var sl Term
